@@ -64,8 +64,8 @@ def grep_forbidden():
     return hits
 
 
-def lean_build():
-    """regenerate tables, lake build under a lock; returns (ok, log_tail, failed_modules)"""
+def lean_build(targets):
+    """regenerate tables, lake build <targets> under a lock; returns (ok, log_tail, failed_modules)"""
     import tables
     os.makedirs(os.path.join(LEAN, ".lake"), exist_ok=True)
     with open(os.path.join(LEAN, ".lake", "verif.lock"), "w") as lk:
@@ -75,7 +75,7 @@ def lean_build():
         except Exception as e:  # source no longer parses the way tables.py expects
             return False, "tables.py: " + repr(e), ["BigtreeModel.Generated.Tables"]
         t = time.time()
-        p = subprocess.run(["lake", "build"], cwd=LEAN, capture_output=True, text=True, timeout=3000)
+        p = subprocess.run(["lake", "build"] + list(targets), cwd=LEAN, capture_output=True, text=True, timeout=3000)
         out = p.stdout + p.stderr
         failed = re.findall(r"^✖ \[\d+/\d+\] (?:Building|Built) (\S+)", out, re.M)
         log(f"[build] lake build rc={p.returncode} {time.time()-t:.1f}s")
@@ -107,13 +107,17 @@ def run_leanchecker(modules):
 
 
 # ------------------------------------------------------------------ model side
+def driver_exe(handler: str) -> str:
+    return os.path.join(LEAN, ".lake", "build", "bin", "btmodel_" + handler)
+
+
 def run_model(prop: str, handler: str, cases):
-    exe = os.path.join(LEAN, ".lake", "build", "bin", "btmodel")
+    exe = driver_exe(handler)
     inp = "".join(f"{handler} {c.line}\n" for c in cases)
     if os.path.exists(exe):
         cmd = [exe]
     else:
-        cmd = ["lake", "env", "lean", "--run", "Driver.lean"]
+        cmd = ["lake", "env", "lean", "--run", os.path.join("Main", handler + ".lean")]
     p = subprocess.run(cmd, cwd=LEAN, input=inp, capture_output=True, text=True, timeout=3000)
     lines = p.stdout.split("\n")
     if lines and lines[-1] == "":
@@ -208,11 +212,11 @@ def main():
 
     # 1. build
     build_ok, build_log, failed_modules = (True, "", [])
+    imports = list(getattr(mod, "PROOF_IMPORTS", [f"BigtreeProofs.Properties.{prop}"]))
     if not args.no_build:
-        build_ok, build_log, failed_modules = lean_build()
+        build_ok, build_log, failed_modules = lean_build(["btmodel_" + handler] + imports)
     # 2. audit
     theorems = list(mod.THEOREMS)
-    imports = list(getattr(mod, "PROOF_IMPORTS", [f"BigtreeProofs.Properties.{prop}"]))
     axioms, audit_log = ({th: None for th in theorems}, "")
     forbidden = grep_forbidden()
     if build_ok:
@@ -238,7 +242,7 @@ def main():
     log(f"[{prop}] impl side {time.time()-timpl:.1f}s")
     mismatches = []
     model_out = None
-    exe = os.path.join(LEAN, ".lake", "build", "bin", "btmodel")
+    exe = driver_exe(handler)
     if os.path.exists(exe) or build_ok:
         tm = time.time()
         try:
